@@ -300,3 +300,5 @@ def run(ctx):
     boundaries.check_amounts(ctx, 'C18.RA', 'C18')
     from .. import errdisc
     errdisc.check(ctx, 'C18.RD', 'C18', 36)
+    from .. import boundaries as _b
+    _b.check_predicates(ctx, 'C18.RP', 'C18')
